@@ -129,15 +129,25 @@ sample key (`"reconstruction_size"`), or as a list / tuple of integers -/
 inductive CropForm | intString | key | seq
 deriving DecidableEq, Repr
 
-/-- the `if / elif / else` chain of `CropKspace.__call__`:
+/-- the chain of `CropKspace.__call__` that resolves the crop shape (repaired in f148874: a string crop is parsed first and
+then takes the same branch as a list / tuple):
 ```
-if isinstance(self.crop, IntegerListOrTupleString): crop_shape = IntegerListOrTupleString(self.crop)
-elif isinstance(self.crop, str):                     crop_shape = sample[self.crop][:-1]
-else: if kspace.ndim == 5 and len(self.crop) == 2:  crop_shape = (kspace.shape[1],) + tuple(self.crop)
-      else:                                           crop_shape = tuple(self.crop)
+if isinstance(self.crop, str) and not isinstance(self.crop, IntegerListOrTupleString):
+    crop_shape = sample[self.crop][:-1]
+else:
+    crop = IntegerListOrTupleString(self.crop) if isinstance(self.crop, str) else self.crop
+    if kspace.ndim == 5 and len(crop) == 2:  crop_shape = (kspace.shape[1],) + tuple(crop)
+    else:                                     crop_shape = tuple(crop)
 ```
 `crop` = the integers of the option (parsed when a string), `keyVal` = `sample[self.crop]`, `slices = kspace.shape[1]`. -/
 def cropShapeResolve (form : CropForm) (ndim : Int) (crop keyVal : List Int) (slices : Int) : List Int :=
+  match form with
+  | .key => keyVal.dropLast
+  | .intString => if ndim = 5 ∧ crop.length = 2 then slices :: crop else crop
+  | .seq => if ndim = 5 ∧ crop.length = 2 then slices :: crop else crop
+
+/-- the pinned tree: `if IntegerListOrTupleString: parsed, as is / elif str: sample[key][:-1] / else: the 5-D branch` -/
+def cropShapeResolvePinned (form : CropForm) (ndim : Int) (crop keyVal : List Int) (slices : Int) : List Int :=
   match form with
   | .intString => crop
   | .key => keyVal.dropLast
